@@ -9,7 +9,6 @@
 (***************************************************************************)
 EXTENDS FVBoundary
 
-IsNaR(q) == q[2] = 0
 \* 1-based position of interior cell c in the C-order flattening of the interior block
 RECURSIVE IntIdxFrom(_, _, _)
 IntIdxFrom(g, c, a) == IF a = 0 THEN 0 ELSE IntIdxFrom(g, c, a - 1) * NCells(g, a) + (c[a] - 1)
@@ -142,6 +141,31 @@ C01_ClosedPeriodic(g, bc, V, M) ==
   IN  \A c \in Interior(g) :
         RIsZero(RSumSet({q \in AllCells(g) : img(q) = c /\ GhostDegree(g, q) <= 1},
                         LAMBDA q : WeightedColSum(V, M, q)))
+
+-----------------------------------------------------------------------------
+(* C04 - solvePDE solves exactly the system its term list and BCs define, in place.
+   D2: the configuration fixes the post-state xstar; the data were derived from it.     *)
+Live(g) == {c \in AllCells(g) : GhostDegree(g, c) <= 1}
+C04_Solves(g, xstar, r) == \A c \in Live(g) : r[c] = xstar[c]
+C04_SameInterior(g, r1, r2) == \A c \in Interior(g) : r1[c] = r2[c]
+C04_Linear(g, r1, r2, rsum) == \A c \in Live(g) : rsum[c] = RAdd(r1[c], r2[c])
+\* the assembled system: boundary rows are exactly the BC rows, interior rows exactly the terms
+C04_Assembly(g, Mhand, Rhand, Mbc, Rbc, A, alpha, dt, old, gamma) ==
+  /\ \A p \in (DOMAIN Mhand) \cup (DOMAIN Mbc) :
+        p[1] \notin Interior(g) => MGet(Mhand, p[1], p[2]) = MGet(Mbc, p[1], p[2])
+  /\ \A c \in AllCells(g) : c \notin Interior(g) => Rhand[c] = Rbc[c]
+  /\ \A p \in (DOMAIN Mhand) \cup (DOMAIN A) :
+        p[1] \in Interior(g) =>
+           MGet(Mhand, p[1], p[2]) =
+              RAdd(MGet(A, p[1], p[2]), IF p[1] = p[2] THEN RDiv(alpha[p[1]], dt) ELSE RZero)
+  /\ \A c \in Interior(g) : Rhand[c] = RAdd(gamma[c], RDiv(RMul(alpha[c], old[c]), dt))
+
+(* C12 - time stepping *)
+C12_Residual(g, alpha, dt, old, A, gamma, r) ==
+  \A P \in Interior(g) :
+     RAdd(RDiv(RMul(alpha[P], RSub(r[P], old[P])), dt), MApplyRow(A, r, P)) = gamma[P]
+C12_ExplicitStep(g, dt, inp, rhs, r) ==
+  \A P \in Interior(g) : r[P] = RAdd(inp[P], RMul(dt, rhs[P]))
 
 \* the reference mesh record (what the documentation promises)
 RefMesh(g) ==
